@@ -217,7 +217,9 @@ def doAct : Nat → HCtx → Act → M (Option Outcome)
     | .yld _ => return none      -- handled by the generator stepper
     | .call .. => return none
     | .wait .. => return none
-    | .addH h => addHandler h; return none
+    | .addH h =>
+      if ((← get).handler h).kind.code == 0 then addHandler h; return none
+      else return some .raised
     | .rmH h byName =>
       if ← removeHandler h byName then return none else return some .raised
     | .reg c p => register fuel c p; return none
